@@ -495,7 +495,9 @@ func (db *DB) finishSyncExecutorWait() {
 // IsOpen returns true if the database has been opened.
 func (db *DB) IsOpen() bool {
 	db.mu.RLock()
+	verifTrace(db, "dbmu.rlock")
 	defer db.mu.RUnlock()
+	defer verifTrace(db, "dbmu.runlock")
 	return db.opened
 }
 
@@ -661,7 +663,9 @@ func (db *DB) invalidatePosCache() {
 // Notify returns a channel that closes when the shadow WAL changes.
 func (db *DB) Notify() <-chan struct{} {
 	db.mu.RLock()
+	verifTrace(db, "dbmu.rlock")
 	defer db.mu.RUnlock()
+	defer verifTrace(db, "dbmu.runlock")
 	return db.notify
 }
 
@@ -669,7 +673,9 @@ func (db *DB) Notify() <-chan struct{} {
 // Only valid after database exists & Init() has successfully run.
 func (db *DB) PageSize() int {
 	db.mu.RLock()
+	verifTrace(db, "dbmu.rlock")
 	defer db.mu.RUnlock()
+	defer verifTrace(db, "dbmu.runlock")
 	return db.pageSize
 }
 
@@ -778,12 +784,15 @@ func (db *DB) EnsureExists(ctx context.Context) error {
 // Open initializes the background monitoring goroutine.
 func (db *DB) Open() (err error) {
 	db.mu.Lock()
+	verifTrace(db, "dbmu.acq")
 	if db.opened {
+		verifTrace(db, "dbmu.rel")
 		db.mu.Unlock()
 		return nil // already open
 	}
 	// Recreate context for fresh start (handles reopen after close)
 	db.ctx, db.cancel = context.WithCancel(context.Background())
+	verifTrace(db, "dbmu.rel")
 	db.mu.Unlock()
 
 	// Validate fields on database.
@@ -815,7 +824,9 @@ func (db *DB) Open() (err error) {
 
 	// Mark as opened only after successful initialization.
 	db.mu.Lock()
+	verifTrace(db, "dbmu.acq")
 	db.opened = true
+	verifTrace(db, "dbmu.rel")
 	db.mu.Unlock()
 
 	return nil
@@ -836,7 +847,9 @@ func (db *DB) Close(ctx context.Context) (err error) {
 	if err := db.execSem.Acquire(context.WithoutCancel(ctx), 1); err != nil {
 		return err
 	}
+	verifTrace(db, "exec.acq")
 	defer db.execSem.Release(1)
+	defer verifTrace(db, "exec.rel")
 
 	// Perform a final db sync, if initialized.
 	if db.db != nil {
@@ -863,6 +876,7 @@ func (db *DB) Close(ctx context.Context) (err error) {
 	}
 
 	db.mu.Lock()
+	verifTrace(db, "dbmu.acq")
 	sqlDB := db.db
 	f := db.f
 	db.db = nil
@@ -873,6 +887,7 @@ func (db *DB) Close(ctx context.Context) (err error) {
 	// Once closed, other processes may checkpoint or truncate the WAL, so a
 	// later Open() must re-verify continuity from the LTX files alone.
 	db.syncState = syncState{}
+	verifTrace(db, "dbmu.rel")
 	db.mu.Unlock()
 
 	if sqlDB != nil {
@@ -1263,12 +1278,14 @@ func (db *DB) syncOnce(ctx context.Context, maxSyncWALBytes int64) (syncResult, 
 		return syncResult{}, err
 	}
 	defer db.execSem.Release(1)
+	defer verifTrace(db, "exec.rel")
 
 	return db.syncLocked(ctx, maxSyncWALBytes)
 }
 
 func (db *DB) lockExec(ctx context.Context) error {
 	if db.execSem.TryAcquire(1) {
+		verifTrace(db, "exec.try")
 		return nil
 	}
 	db.beginSyncExecutorWait()
@@ -1277,6 +1294,7 @@ func (db *DB) lockExec(ctx context.Context) error {
 	if err := db.execSem.Acquire(ctx, 1); err != nil {
 		return fmt.Errorf("wait for db sync executor: %w", context.Cause(ctx))
 	}
+	verifTrace(db, "exec.acq")
 	return nil
 }
 
@@ -1955,7 +1973,9 @@ func (db *DB) applySyncResult(state *syncState, result syncResult) {
 
 func (db *DB) newSyncExecutor(ctx context.Context) (*syncExecutor, error) {
 	db.mu.Lock()
+	verifTrace(db, "dbmu.acq")
 	defer db.mu.Unlock()
+	defer verifTrace(db, "dbmu.rel")
 
 	if err := db.init(ctx); err != nil {
 		return nil, err
@@ -1997,11 +2017,13 @@ func (db *DB) applySyncExecutor(exec *syncExecutor, notify bool) {
 	}
 
 	db.mu.Lock()
+	verifTrace(db, "dbmu.acq")
 	db.syncState = exec.state
 	if notify && exec.synced {
 		close(db.notify)
 		db.notify = make(chan struct{})
 	}
+	verifTrace(db, "dbmu.rel")
 	db.mu.Unlock()
 }
 
@@ -2057,7 +2079,9 @@ func (db *DB) sync(ctx context.Context, checkpointing bool, exec *syncExecutor, 
 	// Prevent internal checkpoints during sync. Ignore if already in a checkpoint.
 	if !checkpointing {
 		db.chkMu.RLock()
+		verifTrace(db, "chk.rlock")
 		defer db.chkMu.RUnlock()
+		defer verifTrace(db, "chk.runlock")
 	}
 
 	fi, err := db.f.Stat()
@@ -2423,6 +2447,7 @@ func (db *DB) Checkpoint(ctx context.Context, mode string) (err error) {
 		return err
 	}
 	defer db.execSem.Release(1)
+	defer verifTrace(db, "exec.rel")
 	db.beginSyncDiag(diagOpCheckpoint)
 	defer func() { db.finishSyncDiag(err) }()
 
@@ -2488,7 +2513,9 @@ func (db *DB) checkpointWithExecutor(ctx context.Context, mode string, exec *syn
 		}
 		return false, nil
 	}
+	verifTrace(db, "chk.try")
 	defer db.chkMu.Unlock()
+	defer verifTrace(db, "chk.rel")
 	exec.checkpointAttempted = true
 
 	// Read WAL header before checkpoint to check if it has been restarted.
@@ -2706,6 +2733,7 @@ func (db *DB) execCheckpoint(ctx context.Context, mode string) (walFrameN int, e
 	// See: https://www.sqlite.org/pragma.html#pragma_wal_checkpoint
 	rawsql := `PRAGMA wal_checkpoint(` + mode + `);`
 
+	verifTrace(db, "ckpt.run")
 	var row [3]int
 	if err := db.db.QueryRowContext(ctx, rawsql).Scan(&row[0], &row[1], &row[2]); err != nil {
 		return 0, err
@@ -2729,6 +2757,7 @@ type snapshotReadPosition struct {
 }
 
 func (p *snapshotReadPosition) close() {
+	verifTrace(p, "chk.runlock")
 	p.closeOnce.Do(func() { p.db.chkMu.RUnlock() })
 }
 
@@ -2751,6 +2780,7 @@ func (db *DB) SnapshotReader(ctx context.Context) (ltx.Pos, io.ReadCloser, error
 	if err != nil {
 		return ltx.Pos{}, nil, err
 	}
+	verifTrace(pos, "snap.owner")
 
 	r, err := db.snapshotReader(ctx, pos)
 	if err != nil {
@@ -2765,9 +2795,11 @@ func (db *DB) snapshotPosition(ctx context.Context) (*snapshotReadPosition, erro
 		return nil, err
 	}
 	defer db.execSem.Release(1)
+	defer verifTrace(db, "exec.rel")
 
 	pageSize := db.PageSize()
 	pos, err := db.Pos()
+	verifTrace(db, "snap.pos")
 
 	if pageSize == 0 {
 		db.Logger.Debug("page size not initialized yet", "pageSize", 0)
@@ -2791,6 +2823,7 @@ func (db *DB) snapshotPosition(ctx context.Context) (*snapshotReadPosition, erro
 	// checkpoint can run between capturing pos and locking chkMu — the
 	// snapshot always matches the advertised position.
 	db.chkMu.RLock()
+	verifTrace(db, "chk.rlock")
 	return &snapshotReadPosition{
 		pos:          pos,
 		pageSize:     pageSize,
@@ -3289,6 +3322,7 @@ func (db *DB) CRC64(ctx context.Context) (uint64, ltx.Pos, error) {
 		return 0, ltx.Pos{}, err
 	}
 	defer db.execSem.Release(1)
+	defer verifTrace(db, "exec.rel")
 
 	exec, err := db.newSyncExecutor(ctx)
 	if err != nil {
